@@ -94,12 +94,20 @@ pub fn join(a: &Bag, b: &Bag) -> Result<Bag, EvalError> {
     Ok(out)
 }
 
-fn num(s: &str) -> Option<f64> {
+/// numeric value of a term: canonical integers of the vocabulary and the decimal spellings
+/// produced by aggregates (never words such as "inf" or "nan")
+pub fn num(s: &str) -> Option<f64> {
     if is_num(s) {
-        s.parse::<f64>().ok()
-    } else {
-        None
+        return s.parse::<f64>().ok();
     }
+    let b = s.as_bytes();
+    if b.is_empty() || !(b[0].is_ascii_digit() || (b[0] == b'-' && b.len() > 1 && b[1].is_ascii_digit())) {
+        return None;
+    }
+    if !s.chars().all(|c| c.is_ascii_digit() || matches!(c, '.' | '-' | 'e' | 'E' | '+')) {
+        return None;
+    }
+    s.parse::<f64>().ok().filter(|x| x.is_finite())
 }
 
 fn eval_arith(a: &Arith, r: &Row) -> Option<f64> {
@@ -438,7 +446,9 @@ fn aggregate(rows: Bag, q: &Select, sem: &Sem) -> Bag {
                     Agg::Max => vals.iter().cloned().fold(None, |m: Option<f64>, x| Some(m.map_or(x, |m| m.max(x)))),
                 };
                 if let Some(x) = val {
-                    row.insert(alias.clone(), canon_num(x));
+                    // spelled like Rust prints an f64 (sums of integers and their quotients
+                    // are exactly determined); comparisons of result tables go by value
+                    row.insert(alias.clone(), format!("{}", x + 0.0));
                 }
             }
         }
